@@ -194,12 +194,15 @@ pub fn run_case(tree: &str, ops: &[String]) -> String {
 
 // ------------------------------------------------------------------------------------------ generators
 fn wrapf(t: TT) -> TT { TT::F(Box::new(t)) }
+thread_local! { /// large shape: targets and writes of 1 KB .. 5 KB (sizes at which a growable target could switch strategy)
+                static LARGE: std::cell::Cell<bool> = std::cell::Cell::new(false); }
+fn large() -> bool { LARGE.with(|l| l.get()) }
 fn gen_leaf_t(rng: &mut Rng, growable_ok: bool) -> TT {
-    let fixed = |rng: &mut Rng| -> Vec<u8> { let n = match rng.below(6) { 0 => 0, 1 => rng.range(13, 30), _ => rng.range(1, 12) } as usize; (0..n).map(|i| 0x30 + (i as u8 % 10)).collect() };
+    let fixed = |rng: &mut Rng| -> Vec<u8> { let n = if large() && rng.chance(2, 3) { *rng.pick(&[1000u64, 1024, 1025, 2048, 4096, 4097, 5000]) } else { match rng.below(6) { 0 => 0, 1 => rng.range(13, 30), _ => rng.range(1, 12) } } as usize; (0..n).map(|i| 0x30 + (i as u8 % 10)).collect() };
     match rng.below(if growable_ok { 6 } else { 3 }) {
         0 | 1 => TT::S(fixed(rng)), 2 => TT::U(fixed(rng)),
-        3 | 4 => { let l = rng.below(7) as usize; let d = rng.bytes(l); TT::V(d, l + *rng.pick(&[0usize, 0, 1, 3, 8])) }
-        _ => { let l = rng.below(7) as usize; let d = rng.bytes(l); TT::M(d, l + *rng.pick(&[0usize, 0, 1, 3, 8])) }
+        3 | 4 => { let l = if large() && rng.chance(1, 2) { *rng.pick(&[1000usize, 1024, 3000, 4096]) } else { rng.below(7) as usize }; let d = rng.bytes(l); TT::V(d, l + *rng.pick(&[0usize, 0, 1, 3, 8, 64, 1024])) }
+        _ => { let l = if large() && rng.chance(1, 2) { *rng.pick(&[1000usize, 1024, 3000, 4096]) } else { rng.below(7) as usize }; let d = rng.bytes(l); TT::M(d, l + *rng.pick(&[0usize, 0, 1, 3, 8, 64, 1024])) }
     }
 }
 fn cap_of(t: &TT) -> usize { match t { TT::S(r) | TT::U(r) => r.len(), TT::V(..) | TT::M(..) => 1 << 40, TT::C(a, b) => cap_of(a).saturating_add(cap_of(b)), TT::L(n, x) => cap_of(x).min(*n), TT::F(x) | TT::R(x) => cap_of(x) } }
@@ -207,7 +210,7 @@ fn gen_tt(rng: &mut Rng, depth: u32) -> TT {
     if depth == 0 || rng.chance(1, 5) { return gen_leaf_t(rng, true); }
     match rng.below(9) {
         0..=3 => { let a = if rng.chance(4, 5) { let mut a = gen_tt(rng, depth - 1); if cap_of(&a) > 1000 { a = gen_leaf_t(rng, false) } a } else { gen_tt(rng, depth - 1) }; let b = gen_tt(rng, depth - 1); TT::C(Box::new(wrapf(a)), Box::new(wrapf(b))) }
-        4..=6 => { let x = gen_tt(rng, depth - 1); let c = cap_of(&x).min(40); let n = match rng.below(6) { 0 => 0, 1 => c, 2 => c + 1 + rng.below(4) as usize, 3 => usize::MAX, _ => rng.below(c as u64 + 1) as usize }; TT::L(n, Box::new(wrapf(x))) }
+        4..=6 => { let x = gen_tt(rng, depth - 1); let c = cap_of(&x).min(if large() { 6000 } else { 40 }); let n = match rng.below(6) { 0 => 0, 1 => c, 2 => c + 1 + rng.below(4) as usize, 3 => usize::MAX, _ => rng.below(c as u64 + 1) as usize }; TT::L(n, Box::new(wrapf(x))) }
         _ => wrapf(gen_tt(rng, depth - 1)),
     }
 }
@@ -234,16 +237,18 @@ pub fn bufmut_random(out: &mut dyn Write, seed: u64, n: usize, maxdepth: u32) {
     let mut rng = Rng::new(seed ^ 0xb0f3);
     for _ in 0..n {
         let depth = rng.below(maxdepth as u64 + 1) as u32;
+        let lg = rng.chance(1, 10); LARGE.with(|l| l.set(lg));
         let mut t = gen_tt(&mut rng, depth);
         // half of the cases: hold the root's children by value (Chain<Limit<_>,_>, Limit<Chain<_,_>>, Chain<&mut [u8],Vec<u8>> ...)
         if rng.chance(1, 2) { t = match t { TT::C(a, b) => TT::C(Box::new(unbox1(*a)), Box::new(unbox1(*b))), TT::L(n, x) => TT::L(n, Box::new(unbox1(*x))), o => o }; }
         if rng.chance(1, 5) { t = TT::R(Box::new(t)); }
-        let mut left = cap_of(&t).min(64);
+        let kmax = if lg { 3000 } else { 20 };
+        let mut left = cap_of(&t).min(if lg { 6000 } else { 64 });
         let all_fixed = simple_fixed(&t);
         let mut paths = vec![]; limit_paths(&t, &mut String::new(), &mut paths);
         let nops = rng.range(1, 8) as usize; let mut ops = vec![];
         for _ in 0..nops {
-            let k_in = |rng: &mut Rng, left: usize| -> usize { match rng.below(12) { 0 => 0, 1 | 2 => left.min(20), 3 => left.min(20) + 1, _ => rng.below(left.min(20) as u64 + 1) as usize } };
+            let k_in = |rng: &mut Rng, left: usize| -> usize { match rng.below(12) { 0 => 0, 1 | 2 => left.min(kmax), 3 => left.min(kmax) + 1, _ => rng.below(left.min(kmax) as u64 + 1) as usize } };
             let op = match rng.below(20) {
                 0 => "rm".to_string(), 1 => "hrm".into(), 2 | 3 => "cm".into(),
                 4 | 5 => { let k = rng.below(5) as usize; format!("cw:{}:{}", k, rng.below(200)) }
